@@ -23,6 +23,10 @@ def known_sig(t, l, clause):
             if wr['kind'] == 'tk' and wr['to'] == 'WAITING' and wr['frm'] in ('RUNNING', 'SUCCESS', 'ERROR', 'DELAYED'):
                 rearmed = True
     out['join_rearmed'] = rearmed
+    # a result delivered late (after the timeout policy failed the attempt) completes a task that is DELAYED for its retry
+    out['late_result_completed_delayed_task'] = any(
+        wr['kind'] == 'tk' and wr['frm'] == 'DELAYED' and wr['to'] in ('SUCCESS', 'ERROR') and st['ev']['what'] == 'on_action_complete'
+        for st in t['steps'][:l] for wr in st['ev'].get('writes', []))
     ev = t['steps'][l - 1]['ev']
     if clause in ('NoHang', 'NoWaitingAtRest'):
         # KF_ResumeJoinNoRefresh: a join still WAITING at rest whose row was created by a resume step
@@ -32,6 +36,41 @@ def known_sig(t, l, clause):
                 first.setdefault(x['sid'], s['ev']['what'])
         waiting = [x for x in t['steps'][l - 1]['obs']['tk'] if x['state'] == 'WAITING' and x['isJoin']]
         out['waiting_join_created_by_resume'] = any(first.get(x['sid']) == 'resume' for x in waiting)
+    # the timeout timer fires on a task that is DELAYED between two retry attempts
+    out['timeout_fired_during_retry_delay'] = any(
+        wr['kind'] == 'tk' and wr['frm'] == 'DELAYED' and wr['to'] == 'ERROR' and st['ev']['what'] == '_fail_task_if_incomplete'
+        for st in t['steps'][:l] for wr in st['ev'].get('writes', []))
+    # the timeout timer fails a task with a retry policy while its action is still running (the late result arrives afterwards)
+    tfr = False
+    for st in t['steps'][:l]:
+        if st['ev']['what'] == '_fail_task_if_incomplete':
+            for wr in st['ev'].get('writes', []):
+                if wr['kind'] == 'tk' and wr['frm'] == 'RUNNING' and wr['to'] == 'ERROR':
+                    nm = wr['sid'].split('/')[-1].split('#')[0]
+                    if t['prog']['tasks'].get(nm, {}).get('retry', 0) > 0 and \
+                            any(a['task'] == wr['sid'] and a['state'] == 'RUNNING' for a in st['obs']['ax']):
+                        tfr = True
+    out['timeout_beat_running_action_of_retry_task'] = tfr
+    noreset = [k for k, st in enumerate(t['steps'][:l]) if st['ev']['kind'] == 'op' and st['ev']['what'] == 'rerun' and st['ev'].get('arg') == 'noreset']
+    if clause in ('NoHang', 'NoWaitingAtRest') and noreset:
+        o = t['steps'][l - 1]['obs']
+        stuck = []
+        for x in o['tk']:
+            if x['wiCount'] >= 0 and x['state'] == 'RUNNING':
+                kids = [a for a in o['ax'] if a['task'] == x['sid']] + [w for w in o['wf'] if w['parent'] == x['sid']]
+                if kids and all(a['state'] in ('SUCCESS', 'ERROR', 'CANCELLED') for a in kids):
+                    stuck.append(x['sid'])
+        out['items_task_stuck_after_noreset_rerun'] = bool(stuck)
+    if clause == 'PartialRerunOnlyFailed' and noreset:
+        k = noreset[-1]
+        before = t['steps'][k - 1]['obs'] if k >= 1 else {'ax': [], 'wf': []}
+        target = t['steps'][k]['ev'].get('target', '')
+        o = t['steps'][l - 1]['obs']
+        kb = [a for a in before['ax'] if a['task'] == target] + [w for w in before['wf'] if w['parent'] == target]
+        ko = [a for a in o['ax'] if a['task'] == target] + [w for w in o['wf'] if w['parent'] == target]
+        failed = [a['idx'] for a in kb if a['accepted'] and a['state'] in ('ERROR', 'CANCELLED')]
+        new = [a['idx'] for a in ko if a['sid'] not in set(b['sid'] for b in kb)]
+        out['extra_indexes_all_after_first_failed'] = bool(failed) and all(i >= min(failed) for i in new)
     if clause == 'WithinLimit':
         o = t['steps'][l - 1]['obs']
         over = []
